@@ -450,7 +450,7 @@ def sample_configs(ck: Check) -> list[dict]:
     # and every controller-synthesis run is executed under a harness time limit (a run that exceeds it yields no verdict)
     cheap = {"stuart_landau": ["linear", "linear_2", "cubic", "quadratic", "peaks_1", "peaks_2"],
              "lorenz": ["ann", "cubic", "quadratic", "peaks_1", "min_ann_1"]}
-    limit = 40 if q else 240
+    limit = 20 if q else 120
     raw = [sl2, lo] if q else [sl2] * 5 + [lo] * 4 + [sl] * 2
     for sysd in raw:
         names = sorted(ctrl_controllers(ctrl_system({**sysd})).keys())
@@ -468,7 +468,7 @@ def sample_configs(ck: Check) -> list[dict]:
             sd = 2 if sysd["system"] == "stuart_landau" else 3
             c = {"kind": "ctrl_sur", "setup": setup, **sysd, "ctrl_layers": [sd, sd], "model_layers": [sd, sd, sd],
                  "warmup": 2, "training": rng.choice([4, 6, 8]), "model_run": rng.choice([4, 6, 8]),
-                 "seed": seed(), "budget": rng.choice([4, 5] if q else [5, 6, 8]), "time_limit": limit}
+                 "seed": seed(), "budget": rng.choice([4, 5] if q else [5, 6]), "time_limit": limit}
             if patched:
                 c["patch_dep"] = True
             add(c)
@@ -594,9 +594,14 @@ def streams(ck: Check) -> None:
     runs: list[tuple[dict, dict, dict, object]] = []
     for cfg in cfgs:
         t0 = time.time()
-        line = json.dumps(cfg, sort_keys=True)
         a = run_config(cfg, root, "A")
-        b = run_config(cfg, root, "B")
+        if a.get("timeout"):    # one replacement with another seed; a run beyond the harness time limit yields no verdict
+            ck.count(f"reseeded_after_harness_time_limit:{cfg['kind']}")
+            ck.notes.append(f"harness time limit hit, configuration re-drawn with another seed: {json.dumps(cfg)}")
+            cfg["seed"] = ck.rng.getrandbits(63)
+            a = run_config(cfg, root, "A")
+        b = dict(a) if a.get("timeout") else run_config(cfg, root, "B")
+        line = json.dumps(cfg, sort_keys=True)
         ck.case(line)
         ck.case(line)
         ck.count(f"cfg:{cfg['kind']}:{cfg.get('setup', 'cmaes')}" + ("+dependency_patch" if cfg.get("patch_dep") else ""))
